@@ -5,9 +5,9 @@ CONSTANTS
   PfxOf <- MCPfxOf
   Vals = {1}
   FVals = {0, 2}
-  SVals = {0, 1}
-  VecIdx = {0}
-  MaxPend = 1
+  SVals = {0, 1, 2}
+  VecIdx = {0, 1}
+  MaxPend = 2
   Mode = "field"
 VIEW DesignView
 INVARIANTS TypeOK
